@@ -263,6 +263,10 @@ func c15Arch(c *Ctx, p *Prog, arch string) map[*ssa.Function][]emitResult {
 			r.OK("C15.E", name+" (declines: panics 'not supported')", p.Pos(f.Pos()), "no bytes are ever emitted")
 			continue
 		}
+		if g := returnsSharedStorage(f); g != "" {
+			r.Bad("C15.E", name+" returns private bytes", p.Pos(f.Pos()), "the emitter returns a view of package-level storage ("+g+") instead of a fresh slice: guards keep the slice and write it later, so a later emission for another target overwrites the destination an earlier guard still holds")
+			continue
+		}
 		res := emit(f)
 		out[f] = res
 		okShape := len(res) > 0
@@ -480,6 +484,10 @@ func c01Template(c *Ctx, p *Prog) {
 		r.Und("C01.R1", "entry emitter", p.Pos(gen.Pos()), "not found")
 		return
 	}
+	if g := returnsSharedStorage(em); g != "" {
+		r.Bad("C01.R1", "entry jump template of "+shortName(em), p.Pos(em.Pos()), "the entry-jump emitter returns a view of package-level storage ("+g+"): every guard aliases one buffer, so applying or restoring a guard after another function was patched writes the other function's replacement address")
+		return
+	}
 	res := emit(em)
 	for _, e := range res {
 		if e.Err != "" {
@@ -501,4 +509,42 @@ func c01Template(c *Ctx, p *Prog) {
 				fmt.Sprintf("the arm64 entry jump loads the code pointer into X%d, an ABIInternal integer argument register (R0–R15): the replacement sees a corrupted argument when the signature uses ≥%d integer words", fm.Scratch, fm.Scratch+1))
 		}
 	}
+}
+
+// returnsSharedStorage: some return value of f is (a slice of) a package-level variable; returns its name.
+func returnsSharedStorage(f *ssa.Function) string {
+	name := ""
+	var walk func(v ssa.Value, seen map[ssa.Value]bool)
+	walk = func(v ssa.Value, seen map[ssa.Value]bool) {
+		if v == nil || seen[v] {
+			return
+		}
+		seen[v] = true
+		switch x := v.(type) {
+		case *ssa.Global:
+			name = x.Name()
+		case *ssa.Slice:
+			walk(x.X, seen)
+		case *ssa.Phi:
+			for _, e := range x.Edges {
+				walk(e, seen)
+			}
+		case *ssa.UnOp:
+			walk(x.X, seen)
+		case *ssa.IndexAddr:
+			walk(x.X, seen)
+		case *ssa.FieldAddr:
+			walk(x.X, seen)
+		case *ssa.ChangeType:
+			walk(x.X, seen)
+		case *ssa.Convert:
+			walk(x.X, seen)
+		}
+	}
+	for _, ret := range returnsOf(f) {
+		for k := range ret.Results {
+			walk(retResult(ret, k), map[ssa.Value]bool{})
+		}
+	}
+	return name
 }
